@@ -76,8 +76,10 @@ func VerifC04Tampered() {
 			return
 		}
 	}
-	// delivery
-	asAncestor := readdressed && vstub.NdChoice("route", 2) == 1
+	// delivery: as an announced head, or as the ancestor of a valid head (then the
+	// link of that head is the claimed address: a re-addressed entry's own address,
+	// or the codec ALIAS of the genuine entry's address)
+	asAncestor := (readdressed || field == 9) && vstub.NdChoice("route", 2) == 1
 	if asAncestor {
 		top, err := entry.CreateEntryWithIO(context.Background(), env.IPFS, w, &entry.Entry{
 			LogID: a.id, Payload: []byte("top"), Next: []cid.Cid{t.GetHash()}, Refs: []cid.Cid{},
